@@ -125,12 +125,6 @@ def checkStack : M Unit := do
   let vm ← get
   if vm.sp ≥ vm.stackSize then exitVm "stack too large" (vmPrintText vm "stack too large") else pure ()
 
-/-- `sp++; vm_check_stack; stack[sp] = {ADDR, a}` -/
-def pushAddr (a : Nat) : M Unit := do
-  setSp ((← getSp) + 1)
-  checkStack
-  wrSlot (← getSp) (.addr a)
-
 def raise (e : Nat) : M Unit := modify fun vm => { vm with running := 2, exception := e }
 
 /-! ### heap accessors (gc_get_* / gc_set_* with their tag assertions) -/
@@ -247,6 +241,70 @@ def gcRun : M Unit := do
   match gcRunPure (← get) with
   | .ok vm' => set vm'
   | .error e => throw e
+
+/-! ### frame operations as pure functions of the machine (the theorems of C03/C13/C14/C15 are stated on these) -/
+
+def rdP (vm : Vm) (i : Int) : Except Stop Slot :=
+  if i < 0 ∨ i ≥ vm.stackSize then .error (.crash "stack read out of bounds") else .ok (vm.stack[i.toNat]?.getD .unknown)
+
+def wrP (vm : Vm) (i : Int) (s : Slot) : Except Stop Vm :=
+  if i < 0 ∨ i ≥ vm.stackSize then .error (.crash "stack write out of bounds") else .ok { vm with stack := vm.stack.setIfInBounds i.toNat s }
+
+def checkP (vm : Vm) : Except Stop Vm :=
+  if vm.sp ≥ vm.stackSize then .error (.exit "stack too large" (vmPrintText vm "stack too large")) else .ok vm
+
+/-- `sp++; vm_check_stack; stack[sp] = {ADDR, a}` -/
+def pushP (vm : Vm) (a : Nat) : Except Stop Vm := do
+  let vm1 ← checkP { vm with sp := vm.sp + 1 }
+  wrP vm1 vm1.sp (.addr a)
+
+/-- `vm_execute_mark`: five frame words written above `sp`, THEN the stack check -/
+def markP (vm : Vm) (retAddr : Nat) : Except Stop Vm := do
+  let sp := vm.sp
+  let v ← wrP vm (sp + 5) (.ip retAddr)
+  let v ← wrP v (sp + 4) (.stk vm.fp)
+  let v ← wrP v (sp + 3) (.addr vm.gp)
+  let v ← wrP v (sp + 2) (.ip vm.line)
+  let v ← wrP v (sp + 1) (.stk vm.pp)
+  checkP { v with fp := sp + 5, sp := sp + 5 }
+
+/-- `vm_execute_call` given the function object's (environment, address) -/
+def callP (vm : Vm) (env fip : Nat) : Vm :=
+  if fip == 0 then { vm with running := 2, exception := 8 }
+  else { vm with gp := env, ip := fip, pp := vm.fp, sp := vm.sp - 1 }
+
+def slideLoopP (q : Nat) : Nat → Vm → Except Stop Vm
+  | 0, vm => .ok vm
+  | n+1, vm => do
+    let s := vm.sp
+    let v ← rdP vm (s + 1 + q)
+    let vm' ← wrP { vm with sp := s + 1 } (s + 1) v
+    slideLoopP q n vm'
+
+/-- `vm_execute_slide` without its trailing `gc_run` -/
+def slideP (vm : Vm) (q m : Nat) : Except Stop Vm :=
+  if q == 0 then .ok vm else
+  if m == 0 then .ok { vm with sp := vm.sp - q } else
+  slideLoopP q m { vm with sp := vm.sp - q - m }
+
+/-- `vm_execute_clear_stack` -/
+def clearStackP (vm : Vm) (n : Nat) : Vm := { vm with fp := vm.pp, sp := vm.pp + n, running := 1 }
+
+/-- `vm_execute_ret` without its trailing `gc_run` -/
+def retP (vm : Vm) : Except Stop Vm := do
+  let fp := vm.fp
+  let gp ← rdP vm (fp - 2)
+  let rip ← rdP vm fp
+  let pp ← rdP vm (fp - 4)
+  let top ← rdP vm vm.sp
+  let v ← wrP vm (fp - 4) top
+  let nfp ← rdP v (fp - 1)
+  .ok { v with gp := gp.asAddr, ip := rip.asAddr, pp := pp.asInt, sp := fp - 4, fp := nfp.asInt }
+
+def liftE {α} (r : Except Stop α) : M α := match r with | .ok a => pure a | .error e => throw e
+
+/-- `sp++; vm_check_stack; stack[sp] = {ADDR, a}` -/
+def pushAddr (a : Nat) : M Unit := do set (← liftE (pushP (← get) a))
 
 /-! ### opcode families -/
 def binOpOf : Opc → Option (NTy × BinOp)
@@ -1039,38 +1097,17 @@ def exec (md : Module) (ins : Instr) (orc : Oracle) : M Unit := do
     let vals ← popAddrs ins.w0
     setObj addr (.vec vals.reverse)
     pushAddr addr
-  | .MARK => do
-    let vm ← get
-    wrSlot (sp + 5) (.ip ins.w0)
-    wrSlot (sp + 4) (.stk vm.fp)
-    wrSlot (sp + 3) (.addr vm.gp)
-    wrSlot (sp + 2) (.ip vm.line)
-    wrSlot (sp + 1) (.stk vm.pp)
-    modify fun vm => { vm with fp := sp + 5, sp := sp + 5 }
-    checkStack
+  | .MARK => do set (← liftE (markP (← get) ins.w0))
   | .CALL => do
     let (gp, fip) ← getFunc (← rdAddr sp)
-    if fip == 0 then raise 8 else
-    modify fun vm => { vm with gp := gp, ip := fip, pp := vm.fp, sp := sp - 1 }
+    modify fun vm => callP vm gp fip
   | .SLIDE => do
-    let q := ins.w0
-    let m := ins.w1
-    if q == 0 then pure () else
-    if m == 0 then setSp (sp - q) else do
-      setSp (sp - q - m)
-      slideLoop q m
+    if ins.w0 == 0 then pure () else
+    set (← liftE (slideP (← get) ins.w0 ins.w1))
     gcRun
-  | .CLEAR_STACK => modify fun vm => { vm with fp := vm.pp, sp := vm.pp + ins.w0, running := 1 }
+  | .CLEAR_STACK => modify fun vm => clearStackP vm ins.w0
   | .RET | .RETHROW => do
-    let vm ← get
-    let fp := vm.fp
-    let gp ← rdAddr (fp - 2)
-    let rip := (← rdSlot fp).asAddr
-    let pp := (← rdSlot (fp - 4)).asInt
-    let top ← rdSlot sp
-    wrSlot (fp - 4) top
-    let nfp := (← rdSlot (fp - 1)).asInt
-    modify fun vm => { vm with gp := gp, ip := rip, pp := pp, sp := fp - 4, fp := nfp }
+    set (← liftE (retP (← get)))
     gcRun
     if op == .RETHROW then modify fun vm => { vm with running := 2 }
   | .LINE => modify fun vm => { vm with line := ins.w0 }
